@@ -114,6 +114,9 @@ func DFS(body Body, verdict Verdict, opts Options) *Stats {
 		stack = stack[:len(stack)-1]
 		ch := &prefixChooser{prefix: w.prefix, sigs: w.sigs}
 		res := vsched.Run(body, ch, vsched.Options{MaxSteps: opts.MaxSteps})
+		if vsched.EventsOverflow() {
+			panic("explore: the observation log overflowed (raise vsched.MaxEvents); refusing to judge a truncated execution")
+		}
 		if ch.bad != "" || res.Outcome == vsched.ReplayDiverged {
 			panic("explore: replay diverged: " + ch.bad + " " + res.Detail)
 		}
